@@ -5,8 +5,9 @@
    last-line-blank book-keeping, CloseFrom computing list looseness and trimming trailing blank lines of
    indented code; column/tab arithmetic with partially consumed tabs (cursor = byte index, column, columns
    left of the tab under the cursor); link reference definitions split off the front of a paragraph when it closes
-   (label, destination, optional title on the same or a following line; SplitDefs).  Not yet modelled: HTML blocks, CR
-   line endings (shapes avoid them); a paragraph that consists of definitions only and is followed by a setext
+   (label, destination, optional title on the same or a following line; SplitDefs); HTML blocks (the seven start
+   conditions with the complete-tag grammar of condition 7, their end conditions).  Not yet modelled: CR line endings
+   (shapes avoid them); a paragraph that consists of definitions only and is followed by a setext
    underline is left to the shapes' discretion (the reference implementations disagree on "---" there).
 
    ParseDoc(bytes) yields the block skeleton with byte offsets; Emit prints it for every document over a
@@ -77,7 +78,7 @@ MarkerAt(L, i) ==
 \*   ind content indent (item) / fence indent; lb last-line-blank; kids completed children; txt line spans of leaf blocks
 Mk(k, s) == [k |-> k, s |-> s, e |-> -1, a |-> 0, c |-> 0, t |-> TRUE, ind |-> 0, lb |-> FALSE, kids |-> <<>>, txt |-> <<>>]
 IsContainer(k) == k \in {"doc", "quote", "list", "item"}
-AcceptsLines(k) == k \in {"para", "fcode", "icode"}
+AcceptsLines(k) == k \in {"para", "fcode", "icode", "html"}
 CanContain(pk, ck) == CASE pk = "list" -> ck = "item" [] pk \in {"doc", "quote", "item"} -> ck # "item" [] OTHER -> FALSE
 
 \* ends-with-blank-line, as in the reference implementations
@@ -213,6 +214,73 @@ CloseFrom(st, d, end, src) ==
            nodes == IF node.k \in {"para", "setext"} THEN SplitDefs(node, src) ELSE <<node>>
        IN CloseFrom([rest EXCEPT ![n-1].kids = @ \o nodes], d, end, src)
 
+\* ---------- HTML blocks (section 4.6): seven start conditions, their end conditions ----------
+LTB == 60  SLASH == 47  BANGC == 33  QMARK == 63
+LowerB(b) == IF b >= 65 /\ b <= 90 THEN b + 32 ELSE b
+IsAlphaB(b) == (b >= 65 /\ b <= 90) \/ (b >= 97 /\ b <= 122)
+IsAlnumB(b) == IsAlphaB(b) \/ IsDigit(b)
+RECURSIVE TagNameEnd(_, _)
+TagNameEnd(L, i) == IF IsAlnumB(At(L, i)) \/ At(L, i) = DASH THEN TagNameEnd(L, i + 1) ELSE i      \* 0-based index after the name
+LowerName(L, i, e) == [k \in 1..(e - i) |-> LowerB(At(L, i + k - 1))]
+BlockTagNames == { <<97, 100, 100, 114, 101, 115, 115>>, <<97, 114, 116, 105, 99, 108, 101>>, <<97, 115, 105, 100, 101>>, <<98, 97, 115, 101>>, <<98, 97, 115, 101, 102, 111, 110, 116>>, <<98, 108, 111, 99, 107, 113, 117, 111, 116, 101>>, <<98, 111, 100, 121>>, <<99, 97, 112, 116, 105, 111, 110>>, <<99, 101, 110, 116, 101, 114>>, <<99, 111, 108>>, <<99, 111, 108, 103, 114, 111, 117, 112>>, <<100, 100>>, <<100, 101, 116, 97, 105, 108, 115>>, <<100, 105, 97, 108, 111, 103>>, <<100, 105, 114>>, <<100, 105, 118>>, <<100, 108>>, <<100, 116>>, <<102, 105, 101, 108, 100, 115, 101, 116>>, <<102, 105, 103, 99, 97, 112, 116, 105, 111, 110>>, <<102, 105, 103, 117, 114, 101>>, <<102, 111, 111, 116, 101, 114>>, <<102, 111, 114, 109>>, <<102, 114, 97, 109, 101>>, <<102, 114, 97, 109, 101, 115, 101, 116>>, <<104, 49>>, <<104, 50>>, <<104, 51>>, <<104, 52>>, <<104, 53>>, <<104, 54>>, <<104, 101, 97, 100>>, <<104, 101, 97, 100, 101, 114>>, <<104, 114>>, <<104, 116, 109, 108>>, <<105, 102, 114, 97, 109, 101>>, <<108, 101, 103, 101, 110, 100>>, <<108, 105>>, <<108, 105, 110, 107>>, <<109, 97, 105, 110>>, <<109, 101, 110, 117>>, <<109, 101, 110, 117, 105, 116, 101, 109>>, <<110, 97, 118>>, <<110, 111, 102, 114, 97, 109, 101, 115>>, <<111, 108>>, <<111, 112, 116, 103, 114, 111, 117, 112>>, <<111, 112, 116, 105, 111, 110>>, <<112>>, <<112, 97, 114, 97, 109>>, <<115, 101, 99, 116, 105, 111, 110>>, <<115, 111, 117, 114, 99, 101>>, <<115, 117, 109, 109, 97, 114, 121>>, <<116, 97, 98, 108, 101>>, <<116, 98, 111, 100, 121>>, <<116, 100>>, <<116, 102, 111, 111, 116>>, <<116, 104>>, <<116, 104, 101, 97, 100>>, <<116, 105, 116, 108, 101>>, <<116, 114>>, <<116, 114, 97, 99, 107>>, <<117, 108>> }
+RawTextNames == { <<112, 114, 101>>, <<115, 99, 114, 105, 112, 116>>, <<115, 116, 121, 108, 101>>, <<116, 101, 120, 116, 97, 114, 101, 97>> }   \* pre script style textarea
+HasAt(L, i, pat) == \A k \in 1..Len(pat) : At(L, i + k - 1) = pat[k]
+ContainsFrom(L, i, pat) == \E k \in i..(Len(L) - Len(pat)) : HasAt(L, k, pat)
+ContainsCI(L, i, pat) == \E k \in i..(Len(L) - Len(pat)) : \A q \in 1..Len(pat) : LowerB(At(L, k + q - 1)) = pat[q]
+\* a complete open or closing tag starting at i ('<'): 0-based index after its '>' or -1 (attributes: name [= value])
+RECURSIVE SkipWSB(_, _), AttrNameEnd(_, _), UnquotedEnd(_, _), QuotedEnd(_, _, _), AttrsEnd(_, _)
+SkipWSB(L, i) == IF At(L, i) \in {SP, TAB, LF, 13} THEN SkipWSB(L, i + 1) ELSE i
+AttrNameEnd(L, i) == IF IsAlnumB(At(L, i)) \/ At(L, i) \in {USC, DOT, 58, DASH} THEN AttrNameEnd(L, i + 1) ELSE i
+UnquotedEnd(L, i) == IF At(L, i) \in {-1, SP, TAB, LF, 13, 34, 39, EQ, LTB, GT, TICK} THEN i ELSE UnquotedEnd(L, i + 1)
+QuotedEnd(L, i, q) == IF At(L, i) = -1 THEN -1 ELSE IF At(L, i) = q THEN i + 1 ELSE QuotedEnd(L, i + 1, q)
+\* after the tag name: attributes, optional white space, optional '/', '>' : index after '>' or -1
+AttrsEnd(L, i) ==
+  LET w == SkipWSB(L, i) IN
+  IF At(L, w) = GT THEN w + 1
+  ELSE IF At(L, w) = SLASH THEN (IF At(L, w + 1) = GT THEN w + 2 ELSE -1)
+  ELSE IF w = i THEN -1                                        \* an attribute must be preceded by white space
+  ELSE IF ~(IsAlphaB(At(L, w)) \/ At(L, w) \in {USC, 58}) THEN -1
+  ELSE LET ne == AttrNameEnd(L, w + 1)
+           v == SkipWSB(L, ne)
+       IN IF At(L, v) # EQ THEN AttrsEnd(L, ne)
+          ELSE LET x == SkipWSB(L, v + 1)
+                   ve == IF At(L, x) \in {34, 39} THEN QuotedEnd(L, x + 1, At(L, x))
+                         ELSE LET u == UnquotedEnd(L, x) IN IF u > x THEN u ELSE -1
+               IN IF ve = -1 THEN -1 ELSE AttrsEnd(L, ve)
+CompleteTagEnd(L, i) ==
+  IF At(L, i) # LTB THEN -1
+  ELSE IF At(L, i + 1) = SLASH THEN
+       (IF ~IsAlphaB(At(L, i + 2)) THEN -1
+        ELSE LET w == SkipWSB(L, TagNameEnd(L, i + 2)) IN IF At(L, w) = GT THEN w + 1 ELSE -1)
+  ELSE IF ~IsAlphaB(At(L, i + 1)) THEN -1
+  ELSE AttrsEnd(L, TagNameEnd(L, i + 1))
+\* start condition met by the line whose first non-space byte is at i (0 = none)
+HtmlStart(L, i) ==
+  IF At(L, i) # LTB THEN 0
+  ELSE LET closing == At(L, i + 1) = SLASH
+           ns == IF closing THEN i + 2 ELSE i + 1
+           ne == TagNameEnd(L, ns)
+           name == IF IsAlphaB(At(L, ns)) THEN LowerName(L, ns, ne) ELSE <<>>
+           after == At(L, ne)
+       IN IF ~closing /\ name \in RawTextNames /\ after \in {SP, TAB, GT, LF, 13, -1} THEN 1
+          ELSE IF HasAt(L, i, <<LTB, BANGC, DASH, DASH>>) THEN 2
+          ELSE IF HasAt(L, i, <<LTB, QMARK>>) THEN 3
+          ELSE IF At(L, i + 1) = BANGC /\ IsAlphaB(At(L, i + 2)) THEN 4
+          ELSE IF HasAt(L, i, <<LTB, BANGC, 91, 67, 68, 65, 84, 65, 91>>) THEN 5
+          ELSE IF name \in BlockTagNames /\ (after \in {SP, TAB, GT, LF, 13, -1} \/ (after = SLASH /\ At(L, ne + 1) = GT)) THEN 6
+          ELSE LET te == CompleteTagEnd(L, i) IN
+               \* the spec text excludes the raw-text names from condition 7; for OPEN tags condition 1 has taken them already, and for
+               \* closing tags ("</pre>" alone on a line) both reference implementations, cmark and commonmark.js, apply condition 7
+               IF te # -1 /\ (closing \/ name \notin RawTextNames) /\ RestBlank(L, te) THEN 7 ELSE 0
+\* end condition of an open HTML block met by the text of the line from i on
+HtmlEnds(cond, L, i) ==
+  CASE cond = 1 -> \E n \in RawTextNames : ContainsCI(L, i, <<LTB, SLASH>> \o n \o <<GT>>)
+    [] cond = 2 -> ContainsFrom(L, i, <<DASH, DASH, GT>>)
+    [] cond = 3 -> ContainsFrom(L, i, <<QMARK, GT>>)
+    [] cond = 4 -> ContainsFrom(L, i, <<GT>>)
+    [] cond = 5 -> ContainsFrom(L, i, <<93, 93, GT>>)
+    [] OTHER -> FALSE
+
 \* ---------- phase 1: match open blocks ----------
 \* returns [m (number of matched frames), c (cursor), term (line consumed by a closing fence), st]
 RECURSIVE Descend(_, _, _, _, _, _)
@@ -240,6 +308,7 @@ Descend(st, d, L, c, ls, src) ==
               IF ind >= 4 THEN Descend(st, d+1, L, Consume(L, c, 4), ls, src)
               ELSE IF RestBlank(L, c.i) THEN Descend(st, d+1, L, j, ls, src) ELSE fail
          [] fr.k = "para" -> IF RestBlank(L, c.i) THEN fail ELSE Descend(st, d+1, L, c, ls, src)
+         [] fr.k = "html" -> IF fr.a \in {6, 7} /\ RestBlank(L, c.i) THEN fail ELSE Descend(st, d+1, L, c, ls, src)
          [] OTHER -> fail
 
 \* ---------- phase 2: open new blocks ----------
@@ -269,6 +338,9 @@ OpenNew(st, m, L, c, ls, src) ==
        LET f == FenceAt(L, j.i)
            st2 == OpenBlock(cut, [Mk("fcode", ls + j.i) EXCEPT !.a = f.n, !.c = f.ch, !.ind = ind], ls, src)
        IN [st |-> st2, m |-> Len(st2), c |-> EOLc, text |-> FALSE]
+  ELSE IF ind <= 3 /\ HtmlStart(L, j.i) > 0 /\ (HtmlStart(L, j.i) < 7 \/ ~tipPara) THEN
+       LET st2 == OpenBlock(cut, [Mk("html", ls + c.i) EXCEPT !.a = HtmlStart(L, j.i)], ls, src)
+       IN [st |-> st2, m |-> Len(st2), c |-> c, text |-> TRUE]
   ELSE IF ck = "para" /\ ind <= 3 /\ SetextLevel(L, j.i) > 0 /\ HasContentAfterDefs(st[m], src) THEN
        LET st2 == [st EXCEPT ![m].k = "setext", ![m].a = SetextLevel(L, j.i)]
        IN [st |-> CloseFrom(st2, m, ls + Len(L), src), m |-> m - 1, c |-> EOLc, text |-> FALSE]
@@ -311,7 +383,9 @@ AddText(st0, m0, L, c, ls, src) ==
       tstart == IF partial THEN c.i + 1 ELSE c.i
       vs == IF partial THEN c.rem ELSE 0
   IN
-  IF AcceptsLines(cont.k) THEN [st3 EXCEPT ![m].txt = Append(@, <<ls + tstart, ls + Len(L), vs>>)]
+  IF AcceptsLines(cont.k) THEN
+       LET st4 == [st3 EXCEPT ![m].txt = Append(@, <<ls + tstart, ls + Len(L), vs>>)]
+       IN IF cont.k = "html" /\ HtmlEnds(cont.a, L, c.i) THEN CloseFrom(st4, m, ls + Len(L), src) ELSE st4
   ELSE IF ~blank THEN
        LET j == SkipWS(L, c)
            p == [Mk("para", ls + c.i) EXCEPT !.txt = << <<ls + j.i, ls + Len(L), 0>> >>]
@@ -362,6 +436,7 @@ CONSTANTS MaxLines, ShapeSetName
 Shapes == CASE ShapeSetName = "wide" -> { <<97, 10>>, <<10>>, <<32, 32, 10>>, <<62, 32, 97, 10>>, <<62, 97, 10>>, <<62, 32, 62, 32, 97, 10>>, <<62, 10>>, <<45, 32, 97, 10>>, <<42, 32, 97, 10>>, <<43, 32, 97, 10>>, <<49, 46, 32, 97, 10>>, <<50, 46, 32, 97, 10>>, <<49, 48, 46, 32, 97, 10>>, <<49, 41, 32, 97, 10>>, <<45, 32, 32, 32, 97, 10>>, <<45, 32, 32, 32, 32, 32, 97, 10>>, <<45, 10>>, <<49, 46, 10>>, <<32, 97, 10>>, <<32, 32, 97, 10>>, <<32, 32, 32, 97, 10>>, <<32, 32, 32, 32, 97, 10>>, <<32, 32, 32, 32, 32, 97, 10>>, <<32, 32, 32, 32, 32, 32, 97, 10>>, <<35, 32, 97, 10>>, <<35, 35, 32, 97, 10>>, <<35, 10>>, <<61, 61, 61, 10>>, <<45, 45, 45, 10>>, <<45, 45, 10>>, <<61, 10>>, <<42, 42, 42, 10>>, <<96, 96, 96, 10>>, <<126, 126, 126, 10>>, <<96, 96, 96, 96, 10>>, <<32, 32, 96, 96, 96, 10>>, <<32, 32, 32, 32, 96, 96, 96, 10>>, <<96, 96, 96, 32, 97, 10>>, <<32, 32, 45, 32, 97, 10>>, <<32, 32, 32, 45, 32, 97, 10>>, <<32, 32, 32, 32, 45, 32, 97, 10>>, <<32, 32, 62, 32, 97, 10>>, <<97>>, <<45, 32, 97>>, <<96, 96, 96>>, <<32, 32, 49, 46, 32, 97, 10>>, <<62, 32, 45, 32, 97, 10>>, <<45, 32, 62, 32, 97, 10>>, <<62, 32, 96, 96, 96, 10>>, <<45, 32, 96, 96, 96, 10>> }
             [] ShapeSetName = "core" -> { <<97, 10>>, <<10>>, <<62, 32, 97, 10>>, <<45, 32, 97, 10>>, <<32, 32, 97, 10>>, <<32, 32, 32, 32, 97, 10>>, <<49, 46, 32, 97, 10>>, <<96, 96, 96, 10>>, <<45, 45, 45, 10>>, <<35, 32, 97, 10>>, <<62, 10>>, <<32, 32, 45, 32, 97, 10>> }
             [] ShapeSetName = "defs" -> { <<91, 97, 93, 58, 32, 47, 117, 10>>, <<91, 97, 93, 58, 10>>, <<47, 117, 10>>, <<34, 116, 34, 10>>, <<91, 97, 93, 58, 32, 47, 117, 32, 34, 116, 10>>, <<117, 34, 10>>, <<120, 10>>, <<62, 32, 91, 97, 93, 58, 32, 47, 117, 10>>, <<62, 32, 34, 116, 34, 10>>, <<45, 32, 91, 97, 93, 58, 10>>, <<32, 32, 47, 117, 10>>, <<61, 61, 61, 10>>, <<10>>, <<91, 97, 93, 58, 32, 47, 117, 32, 34, 116, 34, 32, 120, 10>>, <<91, 98, 93, 58, 32, 60, 118, 32, 119, 62, 32, 39, 116, 39, 10>>, <<32, 91, 97, 93, 58, 32, 47, 117, 10>>, <<32, 32, 91, 98, 93, 58, 32, 47, 118, 10>>, <<91, 97, 93, 58, 32, 47, 117, 32, 40, 116, 41, 10>>, <<62, 32, 120, 10>>, <<42, 42, 42, 10>>, <<91, 97, 93, 10>>, <<91, 97, 93, 58, 32, 60, 62, 10>>, <<91, 97, 10>>, <<98, 93, 58, 32, 47, 117, 10>>, <<91, 97, 93, 58, 32, 47, 117, 32, 39, 116, 39, 32, 32, 10>>, <<32, 32, 32, 39, 117, 39, 32, 121, 10>>, <<91, 97, 93, 58, 32, 47, 117, 92, 10>>, <<91, 93, 58, 32, 47, 117, 10>>, <<91, 97, 93, 32, 58, 32, 47, 117, 10>>, <<91, 97, 93, 58, 47, 117, 10>>, <<35, 32, 104, 10>>, <<91, 97, 93, 58, 32, 47, 117>>, <<32, 32, 32, 32, 91, 98, 93, 58, 32, 47, 118, 10>>, <<9, 91, 98, 93, 58, 32, 47, 118, 10>> }
+            [] ShapeSetName = "html" -> { <<60, 100, 105, 118, 62, 10>>, <<60, 47, 100, 105, 118, 62, 10>>, <<60, 112, 114, 101, 62, 10>>, <<60, 47, 112, 114, 101, 62, 10>>, <<120, 60, 47, 112, 114, 101, 62, 10>>, <<60, 33, 45, 45, 32, 99, 10>>, <<99, 32, 45, 45, 62, 10>>, <<60, 33, 45, 45, 32, 99, 32, 45, 45, 62, 10>>, <<60, 63, 112, 10>>, <<63, 62, 10>>, <<60, 33, 68, 32, 120, 10>>, <<62, 10>>, <<60, 33, 91, 67, 68, 65, 84, 65, 91, 10>>, <<93, 93, 62, 10>>, <<60, 97, 32, 104, 114, 101, 102, 61, 34, 120, 34, 62, 10>>, <<60, 97, 32, 104, 114, 101, 102, 61, 34, 120, 34, 62, 32, 121, 10>>, <<60, 47, 97, 62, 10>>, <<60, 115, 112, 97, 110, 10>>, <<120, 10>>, <<10>>, <<62, 32, 60, 100, 105, 118, 62, 10>>, <<62, 32, 120, 10>>, <<45, 32, 60, 100, 105, 118, 62, 10>>, <<32, 32, 120, 10>>, <<32, 32, 32, 60, 100, 105, 118, 62, 10>>, <<32, 32, 32, 32, 60, 100, 105, 118, 62, 10>>, <<60, 68, 73, 86, 32, 97, 62, 10>>, <<60, 115, 99, 114, 105, 112, 116, 62, 10>>, <<60, 47, 115, 99, 114, 105, 112, 116, 62, 32, 122, 10>>, <<60, 97, 47, 62, 10>>, <<60, 97, 32, 98, 61, 99, 32, 100, 61, 39, 101, 39, 32, 102, 61, 34, 103, 34, 32, 47, 62, 10>>, <<60, 97, 32, 98, 61, 39, 62, 10>>, <<60, 112, 10>>, <<60, 112, 114, 101, 32, 120, 10>>, <<60, 104, 114, 47, 62, 10>>, <<60, 47, 112, 114, 101, 10>>, <<60, 97, 10>>, <<60, 97, 32, 98, 32, 61, 32, 99, 62, 10>>, <<60, 97, 32, 98, 61, 62, 10>>, <<60, 45, 97, 62, 10>>, <<60, 100, 105, 118>> }
             [] ShapeSetName = "tabs" -> { <<45, 32, 96, 96, 96, 10>>, <<32, 32, 96, 96, 96, 10>>, <<32, 32, 9, 120, 10>>, <<32, 32, 120, 10>>, <<9, 120, 10>>, <<62, 32, 96, 96, 96, 10>>, <<62, 32, 9, 120, 10>>, <<62, 9, 120, 10>>, <<96, 96, 96, 10>>, <<32, 9, 120, 10>>, <<49, 46, 32, 96, 96, 96, 10>>, <<32, 32, 32, 9, 120, 10>>, <<32, 32, 32, 96, 96, 96, 10>>, <<10>>, <<120, 10>>, <<32, 32, 32, 32, 9, 120, 10>>, <<45, 32, 9, 120, 10>>, <<32, 96, 96, 96, 10>>, <<45, 9, 120, 10>>, <<9, 9, 120, 10>>, <<32, 9, 45, 32, 120, 10>>, <<49, 46, 9, 120, 10>> }
 VARIABLES doc
 Init == doc = <<>>
